@@ -69,13 +69,18 @@ PROPS = {
         ],
     },
     "C18": {
-        "units": ["cwe560"],
-        "level_text": "The decision predicate of the umask check, cwe_560::is_chmod_style_arg, is extracted from /repo together with the two constants it reads and verified for every u64 argument against the property's own numbers: it answers true exactly when the argument exceeds 0o177 and differs from 0o777. Only this threshold decision is proved; how the argument is computed from the call block (a pointer-inference state folded over a block) and the sizeof-on-pointer check (cwe_467) are not covered.",
-        "level_note": "Not covered: get_umask_permission_arg / compute_block_end_state (pointer-inference State), cwe_467::check_for_pointer_sized_arg. Trusted: rule R13 (immutable static emitted as exec static with its initialiser as ensures).",
+        "units": ["cwe560", "cwe467"],
+        "level_text": "Both decision functions of the property are extracted verbatim from /repo and verified. cwe_560::is_chmod_style_arg (with the two constants it reads) is proved for every u64 argument against the property's own numbers: true exactly when the argument exceeds 0o177 and differs from 0o777. cwe_467::check_for_pointer_sized_arg is proved for every project, block and extern symbol (any number of parameters, any pointer size, parameter values of any bit width): it returns true exactly when some parameter of the symbol evaluates successfully to a single known bitvector whose unsigned numeric value, independent of its bit width, fits a u64 and equals project.stack_pointer_register.size. Only the decisions are proved: how a parameter value is computed from the call block (a pointer-inference State folded over the block, State::eval_parameter_arg, DataDomain::try_to_bitvec) is an uninterpreted deterministic function of the call arguments.",
+        "level_note": "Not covered: get_umask_permission_arg / compute_block_end_state bodies (pointer-inference State), State::eval_parameter_arg, State::handle_load/handle_store, DataDomain::try_to_bitvec, check_cwe of both modules (symbol map, call sites, warning generation). Trusted: rule R13 (immutable static emitted as exec static with its initialiser as ensures); shim/cwe467.rs (opaque types RuntimeMemoryImage/Program/CallingConvention/DatatypeProperties/Blk/State/Data; uninterpreted c467_block_end_state / c467_param_value / c467_known_value; Data::try_to_bitvec; spec-less PartialEq for Error; axiom_c467_result_eq_ok_left = std's derived PartialEq of Result<u64, Error> with an Ok left operand); @nobody contracts of cwe_467::compute_block_end_state and State::eval_parameter_arg (real signatures, bodies dropped); apint contract of Bitvector::try_to_u64. Project, ExternSymbol, Arg, Datatype, Term, Tid, Variable are extracted types, not models.",
         "design_ref": "DESIGN.md section 3 (C18)",
         "default_twins": [], "sweep_twins": [],
-        "not_covered": ["cwe_560::get_umask_permission_arg (pointer-inference State over a block)", "cwe_560::check_cwe / generate_cwe_warning", "cwe_467::check_for_pointer_sized_arg", "pointer_inference::State::compute_block_end_state"],
-        "assumptions": ["only the threshold decision is decided; the computation of the argument value is out of reach of this technique (C13's reasons)"],
+        "not_covered": ["cwe_560::get_umask_permission_arg (pointer-inference State over a block)", "cwe_560::check_cwe / generate_cwe_warning", "cwe_467::compute_block_end_state body (pointer-inference State folded over the block defs)", "pointer_inference::State::eval_parameter_arg / handle_load / handle_store bodies", "DataDomain::try_to_bitvec (which abstract values are a single known value)", "cwe_467::check_cwe / generate_cwe_warning (get_symbol_map, get_callsites)"],
+        "assumptions": [
+            "only the two decisions are decided; the computation of the argument / parameter values is out of reach of this technique (C13's reasons) and enters as uninterpreted deterministic functions c467_block_end_state, c467_param_value, c467_known_value",
+            "try_to_bitvec returns Ok(v) exactly for the single known value v, and v is a well-formed bitvector (shim/cwe467.rs)",
+            "std derived PartialEq on Result<u64, apint::Error>: Ok(a) == b iff b is Ok(a) (axiom_c467_result_eq_ok_left)",
+            "apint contract Bitvector::try_to_u64: Ok iff the unsigned value < 2^64, then equal to it (shim/apint.rs); u64::from(ByteSize) is the wrapped number (shim/bytesize.rs)",
+        ],
     },
     "C19": {
         "units": ["memimage"],
